@@ -20,6 +20,8 @@ OUTSIDE = ["the json module"]
 LEVEL_TEXT = ("Symbolic execution of the real paranoia_mode on the real generate() output: every leaf of the filtered structure "
               "is classified by its term (a new or moved secret is caught wherever it sits), the filtered structure is shown to be "
               "exactly the projection of the unfiltered one onto public leaves, and what pprint/export emit is that filtered mapping.")
+TECHNIQUE = ("symbolic execution of the real Python source (AST-instrumented import, z3 terms), per-path SMT queries; bounded model "
+             "checking; 42 end-to-end runs of the real command with --paranoia (concrete, validating the CLI wiring)")
 LEVEL_NOTE = "Trusted: z3, classification by term structure under the summaries of C06."
 PUBLIC = ("path", "address", "sec", "xpub")
 
